@@ -126,7 +126,10 @@ func (m *UpstreamClusterController) syncUpstreamCluster(obj interface{}) (syncqu
 		clusterInfo, err = clusters.CreateClusterInfo(cluster, GatewayHealthCheck, m.rateLimiter, m.clientSets)
 		defer func() {
 			if err != nil {
-				clusterInfo.Stop()
+				// CreateClusterInfo returns no cluster info together with an error
+				if clusterInfo != nil {
+					clusterInfo.Stop()
+				}
 				m.DeleteForServerNames(clusterName)
 			}
 		}()
